@@ -6,17 +6,36 @@ def _mutated(d):
     return bool(d.get("faults")) or d.get("kind") == "shipped_legacy"
 
 
-def _dummy_lock_oob(desc, events, inv):
-    """F-C16-4: the only broken rule of the description is an out-of-range lockout reference held by entry 0, and the
-    failing relation is `accepted although invalid`."""
-    net = desc.get("net") or []
-    if inv != "AcceptIffValid" or len(net) < 2:
-        return False
-    f = desc.get("faults") or []
-    single = len(f) == 1 and isinstance(f[0], dict) and f[0].get("kind") == "dummy_lock_oob"
-    oob = any(v == -1 or v >= len(net) for v in net[0].get("lock", []))
-    loads = [e for e in events if e.get("ev") == "Load"]
-    return single and oob and bool(loads) and all(e["outcome"] == "accepted" for e in loads)
+# ---- bin/selftest: corruptions of a recorded trace (one field each), expected invariant at that line
+def _first(ev, pred, start=0):
+    for i in range(start, len(ev)):
+        if pred(ev[i]):
+            return i
+    return None
+
+
+def _flip(ev, frm, to, expect):
+    i = _first(ev, lambda e: e.get("ev") == "Load" and e["outcome"] == frm)
+    if i is None:
+        return None
+    ev[i]["outcome"] = to
+    return ev, i, expect
+
+
+def _legacy_field(ev):
+    i = _first(ev, lambda e: e.get("ev") == "Legacy" and e["old"] == "accepted" and e["new"] == "accepted" and e["fields"])
+    if i is None:
+        return None
+    ev[i]["fields"][sorted(ev[i]["fields"])[0]] = False
+    return ev, i, ["LegacyEqual"]
+
+
+def _legacy_verdict(ev):
+    i = _first(ev, lambda e: e.get("ev") == "Legacy" and e["old"] == "rejected" and e["new"] == "rejected")
+    if i is None:
+        return None
+    ev[i]["old"] = "accepted"
+    return ev, i, ["LegacySameVerdict"]
 
 
 RULE = ("cases = every description reached by TLC in the bounded NetworkRules configs (valid base network from the family "
@@ -41,7 +60,7 @@ GROUP = dict(
         "quick": [dict(cfg="MCNetworkRules_quick.cfg", emit=True, workers=8, timeout=300),
                   dict(cfg="MCNetworkRules_pairs_noemit.cfg", emit=False, workers=8, timeout=600)],
         "thorough": [dict(cfg="MCNetworkRules_thorough.cfg", emit=True, workers=8, timeout=900),
-                     dict(cfg="MCNetworkRules_pairs.cfg", emit=True, max_emit=20000, workers=16, timeout=1800)],
+                     dict(cfg="MCNetworkRules_pairs.cfg", emit=True, max_emit=20000, workers=8, timeout=1800)],
     },
     gen_n={"quick": 300, "thorough": 6000},
     per_case_ms=60000,
@@ -50,10 +69,23 @@ GROUP = dict(
     props={
         "C16": dict(invariants=["AcceptIffValid", "NoPanic", "LegacyEqual", "LegacySameVerdict"], assumptions=ASSUME),
     },
-    sigs={"dummy_lock_oob": _dummy_lock_oob},
+    sigs={},
+    # bin/selftest: Level-B variants that must break the named invariant in TLC (the invariants are not vacuous)
+    fault_models=[dict(cfg="MCNetworkRules_pinned_cat.cfg", expect=["Conforms"]),      # F-C16-1: inverted catenary test
+                  dict(cfg="MCNetworkRules_pinned_panic.cfg", expect=["ImplNoPanic"]),  # F-C16-2: unchecked self[idx]
+                  dict(cfg="MCNetworkRules_skip1.cfg", expect=["Conforms"])],           # F-C16-4: range check skipping entry 0
+    selftest_cases=24,
+    corrupt={
+        "accepted_to_rejected": lambda ev: _flip(ev, "accepted", "rejected", ["AcceptIffValid"]),
+        "rejected_to_accepted": lambda ev: _flip(ev, "rejected", "accepted", ["AcceptIffValid"]),
+        "rejected_to_panic": lambda ev: _flip(ev, "rejected", "panic", ["NoPanic"]),
+        "legacy_field_differs": _legacy_field,
+        "legacy_verdict_differs": _legacy_verdict,
+    },
     vacuity=lambda r: ("no load was recorded" if r["stats"].get("loads", 0) == 0 else
                        "no valid description was accepted" if r["stats"].get("accepted", 0) == 0 else
                        "no description was rejected" if r["stats"].get("rejected", 0) == 0 else
+                       "the harness failed on some cases (temp files?)" if r["stats"].get("harness_err", 0) > 0 else
                        "no legacy/current pair loaded" if r["stats"].get("legacy_both", 0) == 0 else None),
     harness_timeout={"quick": 600, "thorough": 3600},
 )
@@ -66,8 +98,8 @@ ENGINE = dict(name="NetworkRules", path="specs/NetworkRules.tla", serves_propert
                              "(NetworkRulesTrace.tla)")
 _NOTE = ("Trusted: TLC, the harness' text renderer (flow-style YAML/JSON written by hand, so malformed values reach the "
          "loaders unchanged), serde's projection for the field-by-field legacy comparison. Bounded: exhaustive for single "
-         "faults (and pairs on one base) on the base family; random corridors beyond. Known finding F-C16-4 (out-of-range "
-         "lockout reference on entry 0 is accepted).")
+         "faults (and pairs on one base) on the base family; random corridors beyond. Found F-C16-4 (out-of-range lockout "
+         "reference on entry 0 was accepted; repaired by e2a096d).")
 MANIFEST = {
     "C16": dict(engine="NetworkRules", design_ref="3 (C16)",
                 technique="TLA+ spec + TLC model checking + spec->impl replay + TLC trace validation",
